@@ -47,7 +47,7 @@ CHECKS = {
           "name, and nothing else (no link resolution); the stored path of a first Add is clean(arg); an Add answered with "
           "an already listed wd leaves the existing entry (first alias wins); kernel-padded names of every length decode "
           "exactly; the stored path is never empty and is absolute exactly when the argument is, and so is every event "
-          "name (clean_ne_nil, clean_head_slash: all inputs). " + _INJ + "filepath.Clean/Dir/Base are modelled in Lean and compared exhaustively over {a . /}^<=7.",
+          "name, and it ends in '/' only when it is the root (clean_ne_nil, clean_head_slash, clean_no_trailing_slash: all inputs). " + _INJ + "filepath.Clean/Dir/Base are modelled in Lean and compared exhaustively over {a . /}^<=7.",
   "design_ref": "DESIGN.md §5 C08", "note": _INJ_NOTE + "filepath.Clean/Dir/Base (stdlib) modelled and differentially validated only.",
   "technique": "Lean 4 proofs over a hand-written model + differential correspondence (names at every padding residue, all path spellings)",
  },
